@@ -27,7 +27,7 @@ from asl.cfg import Node, cfg_of
 from asl.flow import reaching
 from asl.loader import AnalysisError, Unit, norm, own_nodes
 from asl.values import USERISH, Val, roles_of_annotation
-from .common import real_units
+from .common import real_units, uncast, uncast_deep
 from .c06 import _builtin_consumer
 from .lru import enumerate_paths
 
@@ -243,9 +243,15 @@ def _awaited(u: Unit, cfg, n: Node, parents) -> Tuple[bool, str]:
     p = parents.get(id(call))
     if isinstance(p, ast.Await):
         return True, ""
+    if isinstance(p, ast.AnnAssign) and p.value is call and isinstance(p.target, ast.Name):
+        p = ast.copy_location(ast.Assign(targets=[p.target], value=call), p)
+        store = [s for s in cfg.nodes if s.kind == "store" and s.info.get("value") is call and not s.tag]
+    else:
+        store = None
     if isinstance(p, ast.Assign) and p.value is call and len(p.targets) == 1 and isinstance(p.targets[0], ast.Name):
         name = p.targets[0].id
-        store = [s for s in cfg.nodes if s.kind == "store" and s.ast is p and not s.tag]
+        if store is None:
+            store = [s for s in cfg.nodes if s.kind == "store" and s.ast is p and not s.tag]
         uses = 0
         for m in cfg.nodes:
             if m.tag:
@@ -276,6 +282,8 @@ def r03_2(ctx) -> None:
         iter_params = {p.arg for p in u.params() if "ITERABLE" in roles_of_annotation(p.annotation)
                        and not norm(p.annotation).startswith(("Tuple", "tuple", "List", "list", '"tuple', '"list', "'tuple", "'list"))}
         # ``Iterable[Any]`` element annotations of an outer iterable (starmap) are not parameters
+        from .ownership import closes_all_param
+        iter_params = {p for p in iter_params if not closes_all_param(ctx, u, p)}
         if not iter_params:
             continue
         ctx.count("iterable_params", len(iter_params))
@@ -382,13 +390,18 @@ def r03_3(ctx) -> None:
                 is_awaitable = tests[0][1] == "t"
                 stores = [n for n in nodes if n.kind == "store" and any(
                     isinstance(t, ast.Attribute) and t.attr == "_async_call" for t in n.info.get("targets", []))]
-                sval = norm(stores[-1].info.get("value")) if stores else None
+                sval = norm(uncast_deep(stores[-1].info.get("value"))) if stores else None
+                rv = uncast_deep(rv)
                 if is_awaitable:
                     ok = isinstance(rv, ast.Name) and norm(rv) == norm(tests[0][0].ast.args[0]) and sval == "self.__wrapped__"
                     ctx.check(ok, "R03.3", a, ret, "an awaitable result is returned itself and the callable is "
                               "remembered as asynchronous", witness=f"returns {norm(rv)}, caches {sval}")
                 else:
-                    v = ctx.vals.expr(a, rv, ret)
+                    v = ctx.vals.expr(a, ret.info.get("value"), ret)
+                    v = frozenset(x for x in v if x[0] != "stdlibval") or v
+                    if isinstance(uncast(ret.info.get("value")), ast.Call):
+                        v2 = ctx.vals.expr(a, uncast(ret.info.get("value")), ret)
+                        v = v2 or v
                     ok = bool(v) and all(x[0] == "libcoro" for x in v) and sval == "force_async(self.__wrapped__)"
                     ctx.check(ok, "R03.3", a, ret, "a plain result is wrapped in a library coroutine (never returned "
                               "as a plain value) and the callable is remembered as synchronous",
